@@ -3,9 +3,9 @@ EXTENDS Claim, Json
 Gen2 == <<"x1", "x2">>
 Gen3 == <<"x1", "x2", "x3">>
 Gen4 == <<"x1", "x2", "x3", "x4">>
-StartsAll == {<<"absent", "none">>, <<"absent", "p">>, <<"other", "none">>, <<"other", "p">>,
+StartsAll == {<<"absent", "none">>, <<"absent", "p">>, <<"other", "none">>, <<"other", "p">>, <<"otherdel", "none">>,
               <<"unbound", "none">>, <<"unbound", "p">>, <<"mine", "p">>}
-StartsQuick == {<<"absent", "none">>, <<"other", "none">>, <<"other", "p">>, <<"unbound", "p">>, <<"mine", "p">>}
+StartsQuick == {<<"absent", "none">>, <<"other", "none">>, <<"other", "p">>, <<"otherdel", "none">>, <<"unbound", "p">>, <<"mine", "p">>}
 StartsFresh == {<<"absent", "none">>}
 FgBoth == {"fg", "bg"}
 FgOff == {"bg"}
